@@ -15,6 +15,7 @@ CONSTANTS
   AllowCrash = FALSE
   FixJournalNoPS = TRUE
   FixModeOnOpen = TRUE
+  AllowDropDB = FALSE
   AllowRetain = FALSE
   Emit = "idle"
 VIEW view
